@@ -152,7 +152,7 @@ fn bitenc_step(s: &BState, op: &BOp, cc: &mut CaseCtx) -> Option<BState> {
 }
 
 fn bitenc_unit(width: usize, with_capacity: bool, tier: Tier, ctx: &mut Ctx) {
-    let depth = tier.pick(3, 4);
+    let depth = tier.pick(4, 5);
     let real = if with_capacity {
         BitEnc::with_capacity(width, 40)
     } else {
@@ -415,7 +415,7 @@ impl Prop for C18Prop {
     }
     fn bounds(&self, tier: Tier) -> Value {
         json!({
-            "bitenc": {"widths": "1..=8 (+ with_capacity for 3,5)", "depth": tier.pick(3,4),
+            "bitenc": {"widths": "1..=8 (+ with_capacity for 3,5)", "depth": tier.pick(4,5),
                        "push_values_n": tier.pick("1,3,4,10,11,33", "0,1,2,3,4,5,9,10,11,16,31,32,33,65"),
                        "values": "1, all-ones, value with a bit above the width, 0", "set_indices": "0,5,9,10,11,31,32 (when in range)"},
             "smallints": {"types": "i8/isize, u8/usize, u8/i64, i16/i32", "depth": tier.pick(4,5), "inits": "new, with_capacity, from_elem(v,n) n in {0,2}"},
